@@ -5,12 +5,14 @@ import (
 	"crypto/sha256"
 	"encoding/binary"
 	"fmt"
+	"runtime"
 	"sort"
 	"strings"
 	"sync"
 	"time"
 
 	"verif/sim/netsim"
+	"verif/sim/prng"
 	"verif/sim/scripted"
 
 	"github.com/IBM/TSS/mpc/bls"
@@ -23,11 +25,27 @@ import (
 type CountLogger struct {
 	mu     sync.Mutex
 	Counts map[string]int
+	// Quiet: count nothing and touch no shared memory. Under the race detector a logger that takes a lock (or
+	// uses an atomic) orders every two goroutines that log, and the code under test logs between most of its
+	// accesses: a shared counting logger hides races. C20 runs with a quiet logger that yields the processor now
+	// and then instead (a yield creates no happens-before edge).
+	Quiet bool
+	Salt  uint64
 }
 
 func NewCountLogger() *CountLogger { return &CountLogger{Counts: map[string]int{}} }
 
 func (l *CountLogger) hit(level, f string) {
+	if l.Quiet {
+		// a quarter of the call sites (chosen per run) linger: the goroutine stays runnable for a while between the
+		// accesses before and after the log call, so that unordered accesses of two goroutines meet more often
+		if (prng.Hash64([]byte(f))^l.Salt)%4 == 0 {
+			for i := 0; i < 60; i++ {
+				runtime.Gosched()
+			}
+		}
+		return
+	}
 	l.mu.Lock()
 	l.Counts[level+":"+f]++
 	l.mu.Unlock()
@@ -85,6 +103,7 @@ type DeployCfg struct {
 	PickFixed    []uint16          `json:"pickFixed,omitempty"` // silent mode: members returned for every topic (truncated to the expected count)
 	PSMsgLen     int               `json:"psMsgLen,omitempty"`
 	PickDelayMs  int               `json:"pickDelayMs,omitempty"` // silent mode: the member selection callback takes this long on the simulated clock
+	QuietLog     bool              `json:"quietLog,omitempty"`    // the logger touches no shared memory (race-detector runs)
 }
 
 type Deployment struct {
@@ -140,7 +159,9 @@ func PickMembers(all []uint16, unsorted bool) func(topic []byte, expected int) [
 func NewDeployment(w *netsim.World, cfg DeployCfg) *Deployment {
 	d := &Deployment{W: w, Cfg: cfg, Parties: map[uint16]tss.MpcParty{}, Log: NewCountLogger(), Logs: map[uint16]*CountLogger{},
 		KG: map[uint16][]*scripted.Backend{}, SG: map[uint16][]*scripted.Backend{}, BLS: map[uint16][]*bls.TBLS{}}
-	d.Rec = &scripted.Recorder{StepFn: func() int64 { return w.StepA() }}
+	d.Log.Quiet = cfg.QuietLog
+	d.Log.Salt = w.Seed
+	d.Rec = &scripted.Recorder{StepFn: func() int64 { return w.StepA() }, Quiet: cfg.QuietLog}
 	if cfg.PIDs == nil {
 		d.Cfg.PIDs = identityPIDs(cfg.IDs)
 	}
